@@ -12,7 +12,7 @@ META = {'claimed': True,
                'outnumber successful starts, a cancel frees the slot and the next request on it is accepted (C06_slots_exclusive, C06_cancel_silences_composed, C06_callbacks_le_starts_composed, '
                'C06_cancel_frees_slot, C06_restart_after_cancel); connect over EVERY address list and outcome order with or without timeout: exactly one callback carrying the first socket that '
                'connected or none, addresses tried in order, every created socket but the winner closed, timers and registrations balanced (C06_connect_first_success), cancel safe in every reachable '
-               'state; accept: exactly one callback at the first non-retry answer (C06_accept_once). 33 theorems, unbounded in answer-sequence length and address-list length. Bound to the C by the '
+               'state; accept: exactly one callback at the first non-retry answer (C06_accept_once). 30 theorems, unbounded in answer-sequence length and address-list length. Bound to the C by the '
                'correspondence run on the real events+network stack with a scripted kernel (recv/send/accept/connect/socket/close/poll/getsockopt wrapped; one forked child per case; ASan) and an '
                "independent predicate checker evaluated on the implementation's log.",
  'level_note': 'Trusted: Coq kernel; hand-written models bound by differential execution; the kernel is an oracle (hypotheses kernel_ok/wkernel_ok: recv/send return at most what was asked, send '
